@@ -65,6 +65,17 @@ def _clean_header(header):
     return _OBJECT_AT_PATTERN.sub("...", header)
 
 
+def _chunk_spec_reads_config(spec):
+    """Whether normalizing ``spec`` consults ``array.chunk-size`` ("auto" anywhere in it)."""
+    if isinstance(spec, str):
+        return spec == "auto"
+    if isinstance(spec, dict):
+        return any(_chunk_spec_reads_config(v) for v in spec.values())
+    if isinstance(spec, (tuple, list)):
+        return any(_chunk_spec_reads_config(v) for v in spec)
+    return False
+
+
 def _convert_dask_keys(keys):
     if isinstance(keys, list):
         return List(*(_convert_dask_keys(key) for key in keys))
@@ -129,6 +140,24 @@ class ArrayExpr(SingletonExpr):
             self.deterministic_token,
             cache,
         )
+
+    def __dask_tokenize__(self):
+        # Like ``Expr.__dask_tokenize__``, plus: a chunk spec containing "auto" is
+        # resolved against ``array.chunk-size`` lazily (``chunks``), so the raw spec
+        # alone does not determine the array.  Two nodes built from the same spec
+        # under different configuration have different block grids and must not
+        # share a name (singleton registry, lowering cache and graph merging all
+        # dedupe by name), so the resolved chunks enter the token as well.
+        if not self._determ_token:
+            from dask.tokenize import _tokenize_deterministic
+
+            extra = ()
+            for param in ("chunks", "_chunks"):
+                if param in self._parameters and _chunk_spec_reads_config(self.operand(param)):
+                    extra = (self.chunks,)
+                    break
+            self._determ_token = _tokenize_deterministic(type(self), *self.operands, *extra)
+        return self._determ_token
 
     def __dask_graph__(self):
         from dask._expr import Expr
